@@ -103,7 +103,9 @@ func (h *Handler) catch(ctx context.Context, errChan chan error) {
 
 func (h *Handler) receive(ctx context.Context, conn *net.UDPConn, queue chan data, errChan chan error) {
 	defer h.catch(ctx, errChan)
-	var buffer [65507]byte
+	// larger than any datagram (65527 bytes over IPv6): a buffer of 65507 bytes let the kernel
+	// cut a longer one, and a header that declared the rest was taken for the whole
+	var buffer [65536]byte
 	for {
 		select {
 		case <-ctx.Done():
